@@ -5,7 +5,7 @@ package main
 var pinnedHashes = map[string]string{
 	"GOTYPES_RESOLVEIDENT": "37813323b9abdc16",
 	"GOAST_RESOLVEIDENT":   "4be53d07a97ef4bd",
-	"GOAST_IMPORTS":        "abbf21f60a4a5083",
+	"GOAST_IMPORTS":        "a41afde1826879ac",
 	"DEC_RESOLVEPATH":      "362e2839feeaba9e",
 	"DEC_STRIPVENDOR":      "d4948ac7c1f33463",
 }
